@@ -231,8 +231,11 @@ pub fn run_check_with_context(opts: &CheckOptions<'_>) -> crate::Result<i32> {
     let (all_files, scan_result, skip_structure_checks) =
         scan_or_filter_files(args, cli, paths, ctx, project_root)?;
 
-    // Determine fail_fast mode from CLI or config
-    let fail_fast = args.fail_fast || config.check.fail_fast;
+    // Determine fail_fast mode from CLI or config. A run that updates the baseline evaluates
+    // everything: the new baseline is built from the results of this run, and the entries of
+    // files a short-circuit skipped would be dropped
+    let fail_fast =
+        (args.fail_fast || config.check.fail_fast) && args.update_baseline.is_none();
     let failure_detected = AtomicBool::new(false);
 
     // 3. Process each file (parallel with rayon) using injected context
